@@ -272,6 +272,14 @@ func runC01(c *runCtx) error {
 			c01Case(e, "("+in+") & key in ('k0007', 'k0014', 'k0150', 'zz')", st)
 		}
 	}
+	// key lists with REPEATED keys, adjacent and not, alone and combined (each stored pair once)
+	for _, in := range []string{"key in ('c', 'a', 'c')", "key in ('a', 'b', 'a', 'b')", "key in ('b', 'a', 'a', 'b', 'c', 'a')",
+		"key in ('c', 'a', 'c') & value != 'zz'", "key in ('c', 'a', 'c') | key = 'a'", "key in ('c', 'a', 'c') & key >= 'a'",
+		"key in ('ab', 'a', 'ab', 'aa', 'a') & key ^= 'a'", "key = 'a' | key = 'b' | key = 'a'", "key in ('k', 'zz', 'k', '', 'zz', '')"} {
+		for i := 0; i < 3; i++ {
+			c01Case(e, in, c01Store(r, 12+r.intn(12)))
+		}
+	}
 	// the same predicates as query TEXTS through the whole pipeline (Model/Pipeline.v)
 	pbRun(c, e, r, genPred, katoms)
 	return e.flush()
